@@ -80,6 +80,7 @@ func main() {
 	hashes := flag.String("hashes", "", "file receiving the trace hashes of nontrivial runs")
 	maxViol := flag.Int("maxviol", 2, "stop after this many violations")
 	logRuns := flag.String("eventlog", "", "determinism self-test: write one line per run (hash, steps, choices) to this file")
+	noShrink := flag.Bool("noshrink", false, "do not shrink or confirm violations (determinism self-test)")
 	flag.Parse()
 
 	if *world == "" {
@@ -165,7 +166,9 @@ func main() {
 				longest = c
 			}
 		}
-		if res.Viol != nil {
+		if res.Viol != nil && *noShrink {
+			out.Violations = append(out.Violations, ViolationRec{Property: *prop, Run: idx, Clause: res.Viol.Clause, Msg: res.Viol.Msg, Stable: true})
+		} else if res.Viol != nil {
 			v := handleViolation(w, *world, *prop, *seed, idx, res)
 			out.Violations = append(out.Violations, v)
 			if len(out.Violations) >= *maxViol {
@@ -237,10 +240,10 @@ func watchdog() {
 	for {
 		time.Sleep(5 * time.Second)
 		b := atomic.LoadInt64(&beat)
-		if b != 0 && time.Now().UnixNano()-b > int64(120*time.Second) {
+		if b != 0 && time.Now().UnixNano()-b > int64(90*time.Second) {
 			buf := make([]byte, 1<<20)
 			n := runtime.Stack(buf, true)
-			fmt.Fprintf(os.Stderr, "simworker: watchdog: a run made no progress for 120s (a task blocked on an un-simulated primitive?)\n%s\n", buf[:n])
+			fmt.Fprintf(os.Stderr, "simworker: watchdog: a run made no progress for 90s (a task blocked on an un-simulated primitive?)\n%s\n", buf[:n])
 			os.Exit(2)
 		}
 	}
